@@ -1331,6 +1331,152 @@ example : WFRow [49, 9, 50, 10, 51, 9, 52, 10] ⟨4, 8, 6, 1⟩ := by unfold WFR
 example : (compact [49, 9, 50, 10, 51, 9, 52, 10] [⟨4, 8, 6, 1⟩, ⟨0, 4, 2, 1⟩]).1 = [51, 9, 52, 10, 49, 9, 50, 10] := by decide
 example : lazyColumnInts [[[49], [50]], [[51], [45, 52]]] 1 [1, 0, 1] = some [-4, 2, -4] := by decide
 
+/-- `lineBytes` is the usual notion: the fields joined by tabs, then a newline -/
+theorem lineBytes_eq_intercalate (fs : List Bytes) : lineBytes fs = List.intercalate [9] fs ++ [10] := by
+  induction fs with
+  | nil => rfl
+  | cons f rest ih =>
+    cases rest with
+    | nil => simp [lineBytes, List.intercalate]
+    | cons g rest' =>
+      simp only [lineBytes, ih]
+      simp [List.intercalate]
+
+/-- inside one line: the field of column `col` starts after the earlier fields and their tabs, ends
+inside the line, and reads back as that field (the empty field when the line has no such column) -/
+theorem line_field (fs : List Bytes) : ∀ (col : Nat),
+    ((fs.take col).map (fun f => f.length + 1)).sum + (fs.getD col []).length ≤ (lineBytes fs).length ∧
+    ((lineBytes fs).drop ((fs.take col).map (fun f => f.length + 1)).sum).take (fs.getD col []).length
+      = fs.getD col [] := by
+  induction fs with
+  | nil => intro col; simp [lineBytes]
+  | cons f rest ih =>
+    intro col
+    cases rest with
+    | nil =>
+      cases col with
+      | zero => simp [lineBytes]
+      | succ c => simp [lineBytes]
+    | cons g rest' =>
+      cases col with
+      | zero => simp [lineBytes]
+      | succ c =>
+        obtain ⟨h1, h2⟩ := ih c
+        simp only [List.take_succ_cons, List.map_cons, List.sum_cons, List.getD_cons_succ, lineBytes,
+          List.length_append, List.length_cons]
+        constructor
+        · omega
+        · have e : f.length + 1 + ((g :: rest').take c |>.map (fun f => f.length + 1)).sum
+              = (f ++ [9]).length + ((g :: rest').take c |>.map (fun f => f.length + 1)).sum := by simp
+          have e2 : f ++ 9 :: lineBytes (g :: rest') = (f ++ [9]) ++ lineBytes (g :: rest') := by simp
+          rw [e, e2, List.drop_length_add_append]
+          exact h2
+
+theorem lineRows_spec (col : Nat) (lines : List (List Bytes)) : ∀ (pre : Bytes),
+    (∀ r ∈ lineRows col pre.length lines, WFRow (pre ++ tableText lines) r) ∧
+    (lineRows col pre.length lines).map (fieldOf (pre ++ tableText lines)) = lines.map (fun l => l.getD col []) := by
+  induction lines with
+  | nil => intro pre; simp [lineRows]
+  | cons l rest ih =>
+    intro pre
+    obtain ⟨h1, h2⟩ := line_field l col
+    have ht : tableText (l :: rest) = lineBytes l ++ tableText rest := by simp [tableText]
+    obtain ⟨iw, if_⟩ := ih (pre ++ lineBytes l)
+    rw [List.length_append, List.append_assoc, ← ht] at iw if_
+    simp only [lineRows]
+    refine ⟨?_, ?_⟩
+    · intro r hr
+      rcases List.mem_cons.mp hr with rfl | hr
+      · refine ⟨by simp, by simp only; omega, ?_⟩
+        simp only [ht, List.length_append]; omega
+      · exact iw r hr
+    · rw [List.map_cons, List.map_cons, if_]
+      congr 1
+      unfold fieldOf
+      simp only
+      rw [ht, List.drop_length_add_append, List.drop_append_of_le_length (by omega),
+        List.take_append_of_le_length (by simp only [List.length_drop]; omega)]
+      exact h2
+
+/-- **C18.lineRows_wf**: every row `lineRows` lays out lies inside `tableText lines` (field inside
+its line, line inside the text) — for every table, lines without fields included -/
+theorem lineRows_wf (col : Nat) (lines : List (List Bytes)) :
+    ∀ r ∈ lineRows col 0 lines, WFRow (tableText lines) r := by
+  have := (lineRows_spec col lines []).1
+  simpa using this
+
+/-- **C18.lineRows_field**: the bytes at the laid-out positions are the fields of column `col`,
+line by line (the empty field for a line without such a column) -/
+theorem lineRows_field (col : Nat) (lines : List (List Bytes)) :
+    (lineRows col 0 lines).map (fieldOf (tableText lines)) = lines.map (fun l => l.getD col []) := by
+  have := (lineRows_spec col lines []).2
+  simpa using this
+
+/-- **C18.lazyColumnInts_spec** (no hypothesis): the function the driver runs — lay the table out as
+text, select rows by position (any order, repeats; a position outside the table selects the empty
+field), compact, read the column from the compacted text — is the column reader applied to the
+selected fields' texts -/
+theorem lazyColumnInts_spec (lines : List (List Bytes)) (col : Nat) (idx : List Nat) :
+    lazyColumnInts lines col idx = columnInts (idx.map (fun i => (lines.getD i []).getD col [])) := by
+  unfold lazyColumnInts
+  simp only
+  have hf := lineRows_field col lines
+  have hw := lineRows_wf col lines
+  have hlen : (lineRows col 0 lines).length = lines.length := by
+    have := congrArg List.length hf
+    simpa using this
+  have hwf : ∀ r ∈ idx.map (fun i => (lineRows col 0 lines).getD i default), WFRow (tableText lines) r := by
+    intro r hr
+    obtain ⟨i, _, rfl⟩ := List.mem_map.mp hr
+    by_cases hi : i < (lineRows col 0 lines).length
+    · have : (lineRows col 0 lines).getD i default = (lineRows col 0 lines)[i] := by
+        simp [List.getD_eq_getElem?_getD, List.getElem?_eq_getElem hi]
+      rw [this]; exact hw _ (List.getElem_mem hi)
+    · have : (lineRows col 0 lines).getD i default = (default : LRow) := by
+        simp [List.getD_eq_getElem?_getD, List.getElem?_eq_none (by omega : (lineRows col 0 lines).length ≤ i)]
+      rw [this]
+      exact ⟨Nat.le_refl _, Nat.zero_le _, Nat.zero_le _⟩
+  rw [compact_fields _ _ hwf, List.map_map]
+  congr 1
+  apply List.map_congr_left
+  intro i _
+  simp only [Function.comp]
+  by_cases hi : i < lines.length
+  · have hi' : i < (lineRows col 0 lines).length := by omega
+    have e1 : (lineRows col 0 lines).getD i default = (lineRows col 0 lines)[i] := by
+      simp [List.getD_eq_getElem?_getD, List.getElem?_eq_getElem hi']
+    have e2 : lines.getD i [] = lines[i] := by
+      simp [List.getD_eq_getElem?_getD, List.getElem?_eq_getElem hi]
+    rw [e1, e2]
+    have := congrArg (fun l => l[i]?) hf
+    simp only [List.getElem?_map, List.getElem?_eq_getElem hi', List.getElem?_eq_getElem hi, Option.map_some] at this
+    exact Option.some.inj this
+  · have e1 : (lineRows col 0 lines).getD i default = (default : LRow) := by
+      simp [List.getD_eq_getElem?_getD, List.getElem?_eq_none (by omega : (lineRows col 0 lines).length ≤ i)]
+    have e2 : lines.getD i [] = [] := by
+      simp [List.getD_eq_getElem?_getD, List.getElem?_eq_none (by omega : lines.length ≤ i)]
+    rw [e1, e2]
+    rfl
+
+/-- **C18.lazy_column_values**: hence, when column `col` of the file holds integer texts with int64
+values `vs`, the column read from ANY in-range row selection of the lazily read table — through
+layout, selection, compaction and either route of the column reader — is that selection of `vs` -/
+theorem lazy_column_values (lines : List (List Bytes)) (col : Nat) (vs : List Int)
+    (h : omap specParse (lines.map (fun l => l.getD col [])) = some vs) (hr : ∀ v ∈ vs, int64 v)
+    (idx : List Nat) (hi : ∀ i ∈ idx, i < lines.length) :
+    lazyColumnInts lines col idx = some (idx.map (fun i => vs.getD i 0)) := by
+  rw [lazyColumnInts_spec]
+  have := column_ints_selection (lines.map (fun l => l.getD col [])) vs h hr idx (by simpa using hi)
+  rw [← this]
+  congr 1
+  apply List.map_congr_left
+  intro i him
+  have hlt := hi i him
+  simp [List.getD_eq_getElem?_getD, List.getElem?_eq_getElem hlt]
+
+-- the reviewer's witness: a line with no fields between two ordinary lines
+example : lazyColumnInts [[[49], [50, 51]], [], [[52, 53, 54], [55]]] 0 [2] = some [456] := by decide
+
 theorem fill_spec (m : Int) (f : Bytes → Int) (rows : List Bytes) :
     fillMissing m rows ((rows.filter (fun r => !isMissing r)).map f)
       = rows.map (fun r => if isMissing r then m else f r) := by
